@@ -481,8 +481,18 @@ impl<'a> Unquote<'a> {
             if str_ref.find('\\').is_some() {
                 Cow::from(self.to_string())
             } else {
-                // String is quoted but has no escapes.
-                Cow::from(&str_ref[1..str_ref.len() - 1])
+                // String is quoted but has no escapes: borrow what lies
+                // between the opening quote and the closing one (or the end
+                // of the string if it is unterminated), exactly what the
+                // character iterator yields.
+                let body = match self.state {
+                    UnquoteState::NotStarted => &str_ref[1..],
+                    _ => str_ref,
+                };
+                match body.find('"') {
+                    Some(end) => Cow::from(&body[..end]),
+                    None => Cow::from(body),
+                }
             }
         } else {
             Cow::from(str_ref)
